@@ -155,6 +155,10 @@ theorem exec_setI_lit (fuel : Nat) (v : String) (n : Int) (s : State F) :
   simp [exec, IE.ok, IE.eval]
 
 
+theorem list7 {α} (l : List α) (h : l.length = 7) : ∃ e0 e1 e2 e3 e4 e5 e6, l = [e0, e1, e2, e3, e4, e5, e6] := by
+  match l, h with
+  | [a, b, c, d, e, f, g], _ => exact ⟨a, b, c, d, e, f, g, rfl⟩
+
 /-! ### names -/
 
 @[simp] theorem pfx_eq (p a b : String) : (p ++ a = p ++ b) = (a = b) :=
